@@ -45,8 +45,8 @@ def run(tier):
         parts = [
             {'label': 'bodies-len<=4-all-kinds', 'harness': HEnum(body_states(4), 'bodies4'), 'monitors': mon},
             {'label': 'bodies-len5-10-kinds', 'harness': HEnum(body_states(5, toks8), 'bodies5'), 'monitors': mon},
-            {'label': 'story-order-closure', 'harness': HStory(pool=6, cap=4, max_list=2, bodies=BODIES, layouts=('before', 'between'), no_expand=(),
-                                                              send_bodies=SEND_BODIES), 'monitors': mon},
+            {'label': 'story-order-closure', 'harness': HStory(pool=6, cap=4, max_list=1, bodies=BODIES, layouts=('before',), no_expand=(),
+                                                              send_bodies=SEND_BODIES), 'monitors': mon, 'opts': {'time_cap': 1500, 'max_states': 30000}},
         ]
     return runner.graph_check(
         'C17', tier, parts, rule=RULE, vacuity=vacuity,
